@@ -545,4 +545,14 @@ RECIPES = [
      "    index = finder(told - dt * previous_value_tol if hold_previous_value else told, tnew)\n", "fixtime: the search function chosen by a conditional expression"),
     ("C19", "break", ["C19-R5"], D, _FX_DISPATCH, "    finder = _find_closest_times if hold_previous_value else _find_closest_previous_times\n"
      "    index = finder(told - dt * previous_value_tol if hold_previous_value else told, tnew)\n", "fixtime: the two search functions exchanged"),
+    ("C19", "neutral", [], P, "    ca = np.vstack((np.zeros((1, cols)), np.cumsum(Df * P, axis=0)))\n", "    ca = np.insert(np.cumsum(Df * P, axis=0), 0, 0.0, axis=0)\n", "rescale: zero row put in front with np.insert"),
+    ("C19", "break", ["C19-R4"], P, "    ca = np.vstack((np.zeros((1, cols)), np.cumsum(Df * P, axis=0)))\n", "    ca = np.insert(np.cumsum(Df * P, axis=0), 0, 1.0, axis=0)\n", "rescale: a row of ones put in front of the cumulative curve"),
+    ("C19", "neutral", [], P, _AREA_LOOPS, """    ncurves = PSD.shape[1]
+    for i, j in ((i, j) for i in range(Freq.size - 1) for j in range(ncurves)):
+        f1, f2 = Freq[i], Freq[i + 1]
+        p1, p2 = PSD[i, j], PSD[i + 1, j]
+        s1 = np.log(p2 / p1) / np.log(f2 / f1) + 1.0
+        _area[j] += p1 * f1 * np.log(f2 / f1) if -1e-5 < s1 < 1e-5 else (f2 * p2 - f1 * p1) / s1
+    return _area
+""", "area: one loop over a generator of (segment, column) pairs"),
 ]
